@@ -417,6 +417,7 @@ var templates = []template{
 	{name: "recv", weight: 3, prefs: []string{"chan"}, ops: []string{"expr", "let1", "letok"}},
 	{name: "close", weight: 2, prefs: []string{"chan"}},
 	{name: "delete", weight: 2, prefs: []string{"map", "key"}},
+	{name: "delvar", weight: 2, prefs: []string{"str", "bool"}, ops: []string{"global-flag", "name-only", "nested"}},
 	{name: "throw", weight: 1, prefs: []string{"scalar"}},
 	{name: "setidx", weight: 3, prefs: []string{"indexable", "key", "scalar"}},
 	{name: "setmember", weight: 3, prefs: []string{"settable", "scalar"}},
@@ -547,6 +548,10 @@ func genCase(t *rapid.T) Case {
 		c.N = rapid.IntRange(0, 2).Draw(t, "nargs")
 	case "member", "setmember":
 		c.Name = pick(t, "member", memberNames)
+	case "delvar":
+		if c.Op == "name-only" {
+			prefs = prefs[:1]
+		}
 	}
 	c.Slots = make([]Slot, len(prefs))
 	for i, p := range prefs {
@@ -560,6 +565,9 @@ func genCase(t *rapid.T) Case {
 		}
 		c.Slots[0].V = Val{K: "int", I: v}
 		c.Slots[1].V = Val{K: "int", I: v + rapid.Int64Range(-1, 1).Draw(t, "neardelta")}
+	}
+	if c.T == "delvar" && rapid.IntRange(0, 3).Draw(t, "delname") > 0 {
+		c.Slots[0].V = Val{K: "str", S: "hv"}
 	}
 	fixSlots(&c)
 	any := false
@@ -746,6 +754,16 @@ func body(c Case, e []string) string {
 		return "close(" + e[0] + ")"
 	case "delete":
 		return "delete(" + e[0] + ", " + e[1] + ")"
+	case "delvar":
+		// delete("name"[, global]) removes a variable: from the current scope, or with a true second
+		// operand the nearest binding; hv lives at top level, the delete runs inside a function
+		switch c.Op {
+		case "name-only":
+			return "hv = 1\n" + "delete(" + e[0] + ")\nr = 1\ntry {\nr = hv\n} catch {\nr = \"gone\"\n}\nr"
+		case "nested":
+			return "hv = 1\nfunc() {\nvar hv = 2\nfunc() {\ndelete(" + e[0] + ", " + e[1] + ")\n}()\n}()\nr = 1\ntry {\nr = hv\n} catch {\nr = \"gone\"\n}\nr"
+		}
+		return "hv = 1\nfunc() {\ndelete(" + e[0] + ", " + e[1] + ")\n}()\nr = 1\ntry {\nr = hv\n} catch {\nr = \"gone\"\n}\nr"
 	case "throw":
 		return "throw " + e[0]
 	case "setidx":
